@@ -174,34 +174,36 @@ package keeper
 
 // PlaceBid: the central entry point for C01/C02/C04/C06/C08/C10/C17/C18/C19.
 //@ func (Keeper).PlaceBid
-//@ requires Inv() && wfPlaceBid(msg) && !isEscrow(addrOf(msg.Bidder))
+// The allow-list and status clauses hold for every caller of the keeper API, whatever bid type it passes (another module is
+// not bound by ValidateBasic); everything else is promised for the three bid types ValidateBasic lets through.
+//@ requires Inv() && wfPlaceBidAnyType(msg) && !isEscrow(addrOf(msg.Bidder))
 //@ requires BidSeq[msg.AuctionId] < 18446744073709551615
 //@ modifies Auction, Bid, BidSeq, Bal, Pool, HookN, HookT, SetT, XferN, XferT
-//@ ensures [C09,C13,C19] instalment-and-matched-length-invariants-are-kept: err == nil && old(Inv() && InvVQ() && InvMatched()) ==> InvVQ() && InvMatched()
-//@ ensures [C15,C10,C11] auction-ids-stay-dense: err == nil && old(InvAuctionsDense()) ==> InvAuctionsDense()
+//@ ensures [C09,C13,C19] instalment-and-matched-length-invariants-are-kept: validBidType(msg.BidType) ==> (err == nil && old(Inv() && InvVQ() && InvMatched()) ==> InvVQ() && InvMatched())
+//@ ensures [C15,C10,C11] auction-ids-stay-dense: validBidType(msg.BidType) ==> (err == nil && old(InvAuctionsDense()) ==> InvAuctionsDense())
 //@ ensures [C08,C18] only-while-open: err == nil ==> old(Auction[msg.AuctionId]).present && old(Auction[msg.AuctionId]).Status == AuctionStatusStarted
 //@ ensures [C10,C18] only-allow-listed: err == nil ==> old(AllowedBidder[msg.AuctionId][addrOf(msg.Bidder)]).present
-//@ ensures [C18] price-floor: err == nil && old(Auction[msg.AuctionId]).Kind == KindBatch ==> msg.Price >= old(Auction[msg.AuctionId]).MinBidPrice
-//@ ensures [C18,C06] bid-type-matches-auction-type: err == nil ==> (old(Auction[msg.AuctionId]).Kind == KindFixed) == (msg.BidType == BidTypeFixedPrice)
-//@ ensures [C18,C06,C04] fixed-price-terms: err == nil && msg.BidType == BidTypeFixedPrice ==> msg.Price == old(Auction[msg.AuctionId]).StartPrice && (msg.Coin.Denom == old(Auction[msg.AuctionId]).PayingCoinDenom || msg.Coin.Denom == old(Auction[msg.AuctionId]).SellingCoin.Denom)
-//@ ensures [C18] batch-denominations: err == nil ==> (msg.BidType == BidTypeBatchWorth ==> msg.Coin.Denom == old(Auction[msg.AuctionId]).PayingCoinDenom) && (msg.BidType == BidTypeBatchMany ==> msg.Coin.Denom == old(Auction[msg.AuctionId]).SellingCoin.Denom)
-//@ ensures [C19] bid-id-is-next: err == nil ==> result0.Id == old(BidSeq[msg.AuctionId]) + 1 && BidSeq[msg.AuctionId] == result0.Id
+//@ ensures [C18] price-floor: validBidType(msg.BidType) ==> (err == nil && old(Auction[msg.AuctionId]).Kind == KindBatch ==> msg.Price >= old(Auction[msg.AuctionId]).MinBidPrice)
+//@ ensures [C18,C06] bid-type-matches-auction-type: validBidType(msg.BidType) ==> (err == nil ==> (old(Auction[msg.AuctionId]).Kind == KindFixed) == (msg.BidType == BidTypeFixedPrice))
+//@ ensures [C18,C06,C04] fixed-price-terms: validBidType(msg.BidType) ==> (err == nil && msg.BidType == BidTypeFixedPrice ==> msg.Price == old(Auction[msg.AuctionId]).StartPrice && (msg.Coin.Denom == old(Auction[msg.AuctionId]).PayingCoinDenom || msg.Coin.Denom == old(Auction[msg.AuctionId]).SellingCoin.Denom))
+//@ ensures [C18] batch-denominations: validBidType(msg.BidType) ==> (err == nil ==> (msg.BidType == BidTypeBatchWorth ==> msg.Coin.Denom == old(Auction[msg.AuctionId]).PayingCoinDenom) && (msg.BidType == BidTypeBatchMany ==> msg.Coin.Denom == old(Auction[msg.AuctionId]).SellingCoin.Denom))
+//@ ensures [C19] bid-id-is-next: validBidType(msg.BidType) ==> (err == nil ==> result0.Id == old(BidSeq[msg.AuctionId]) + 1 && BidSeq[msg.AuctionId] == result0.Id)
 // The literal reading of C16 ("flagged as matched exactly when it received coins") for a fixed-price bid too small to
 // buy one coin (1 paying coin at price 2): C06 wants it accepted, it is flagged matched and receives nothing. Known finding.
-//@ ensures [C16] a-fixed-price-bid-is-flagged-matched-iff-it-buys-something: err == nil && msg.BidType == BidTypeFixedPrice ==> result0.IsMatched == (sellOf(result0, old(Auction[msg.AuctionId]).PayingCoinDenom) > 0)
-//@ ensures [C19,C16] recorded-as-placed: err == nil ==> result0.AuctionId == msg.AuctionId && result0.Bidder == strOf(addrOf(msg.Bidder)) && result0.Type == msg.BidType && result0.Price == msg.Price && result0.Coin == msg.Coin && result0.IsMatched == (msg.BidType == BidTypeFixedPrice) && Bid[msg.AuctionId][result0.Id].present && Bid[msg.AuctionId][result0.Id] == result0
-//@ ensures [C11,C19] existing-bids-untouched: forall(a, uint64, forall(i, uint64, err != nil || a != msg.AuctionId || i != old(BidSeq[msg.AuctionId]) + 1 ==> Bid[a][i] == old(Bid[a][i])))
+//@ ensures [C16] a-fixed-price-bid-is-flagged-matched-iff-it-buys-something: validBidType(msg.BidType) ==> (err == nil && msg.BidType == BidTypeFixedPrice ==> result0.IsMatched == (sellOf(result0, old(Auction[msg.AuctionId]).PayingCoinDenom) > 0))
+//@ ensures [C19,C16] recorded-as-placed: validBidType(msg.BidType) ==> (err == nil ==> result0.AuctionId == msg.AuctionId && result0.Bidder == strOf(addrOf(msg.Bidder)) && result0.Type == msg.BidType && result0.Price == msg.Price && result0.Coin == msg.Coin && result0.IsMatched == (msg.BidType == BidTypeFixedPrice) && Bid[msg.AuctionId][result0.Id].present && Bid[msg.AuctionId][result0.Id] == result0)
+//@ ensures [C11,C19] existing-bids-untouched: validBidType(msg.BidType) ==> (forall(a, uint64, forall(i, uint64, err != nil || a != msg.AuctionId || i != old(BidSeq[msg.AuctionId]) + 1 ==> Bid[a][i] == old(Bid[a][i]))))
 //@ ensures [C19] other-auctions-untouched: forall(x, uint64, x != msg.AuctionId ==> Auction[x] == old(Auction[x]) && BidSeq[x] == old(BidSeq[x]))
-//@ ensures [C19] terms-unchanged: old(Auction[msg.AuctionId]).present ==> Auction[msg.AuctionId].present && sameExcept(Auction[msg.AuctionId], old(Auction[msg.AuctionId]), RemainingSellingCoin)
-//@ ensures [C01,C02,C04] reservation-moves-into-the-paying-escrow: err == nil ==> let(pd, old(Auction[msg.AuctionId]).PayingCoinDenom, bal(payEsc(msg.AuctionId), pd) == old(bal(payEsc(msg.AuctionId), pd)) + payOf(result0, pd))
-//@ ensures [C02,C18] bidder-pays-fee-plus-reservation: err == nil ==> let(pd, old(Auction[msg.AuctionId]).PayingCoinDenom, forall(d, string, bal(addrOf(msg.Bidder), d) == old(bal(addrOf(msg.Bidder), d)) - coins(Params.PlaceBidFee, d) - ite(d == pd, payOf(result0, pd), 0)))
-//@ ensures [C02,C18] fee-goes-to-the-community-pool: err == nil ==> forall(d, string, pool(d) == old(pool(d)) + coins(Params.PlaceBidFee, d))
-//@ ensures [C02,C19] nobody-else-pays: err == nil ==> forall(ad, Addr, forall(d, string, ad != addrOf(msg.Bidder) && (ad != payEsc(msg.AuctionId) || d != old(Auction[msg.AuctionId]).PayingCoinDenom) ==> bal(ad, d) == old(bal(ad, d))))
-//@ ensures [C06,C05] remainder-decreases-by-the-bid: err == nil && msg.BidType == BidTypeFixedPrice ==> Auction[msg.AuctionId].RemainingSellingCoin.Amount == old(Auction[msg.AuctionId]).RemainingSellingCoin.Amount - sellOf(result0, old(Auction[msg.AuctionId]).PayingCoinDenom) && Auction[msg.AuctionId].RemainingSellingCoin.Amount >= 0
-//@ ensures [C06,C19] batch-auction-record-untouched: msg.BidType != BidTypeFixedPrice ==> Auction == old(Auction)
-//@ ensures [C17] hook-fired-before-the-bid-is-written: err == nil && k.hooks != nil ==> hookN("BeforeBidPlaced") == old(hookN("BeforeBidPlaced")) + 1 && hookArgsAre("BeforeBidPlaced", result0.AuctionId, result0.Id, result0.Bidder, result0.Type, result0.Price, result0.Coin) && hookT("BeforeBidPlaced") < setT("Bid")
+//@ ensures [C19] terms-unchanged: validBidType(msg.BidType) ==> (old(Auction[msg.AuctionId]).present ==> Auction[msg.AuctionId].present && sameExcept(Auction[msg.AuctionId], old(Auction[msg.AuctionId]), RemainingSellingCoin))
+//@ ensures [C01,C02,C04] reservation-moves-into-the-paying-escrow: validBidType(msg.BidType) ==> (err == nil ==> let(pd, old(Auction[msg.AuctionId]).PayingCoinDenom, bal(payEsc(msg.AuctionId), pd) == old(bal(payEsc(msg.AuctionId), pd)) + payOf(result0, pd)))
+//@ ensures [C02,C18] bidder-pays-fee-plus-reservation: validBidType(msg.BidType) ==> (err == nil ==> let(pd, old(Auction[msg.AuctionId]).PayingCoinDenom, forall(d, string, bal(addrOf(msg.Bidder), d) == old(bal(addrOf(msg.Bidder), d)) - coins(Params.PlaceBidFee, d) - ite(d == pd, payOf(result0, pd), 0))))
+//@ ensures [C02,C18] fee-goes-to-the-community-pool: validBidType(msg.BidType) ==> (err == nil ==> forall(d, string, pool(d) == old(pool(d)) + coins(Params.PlaceBidFee, d)))
+//@ ensures [C02,C19] nobody-else-pays: validBidType(msg.BidType) ==> (err == nil ==> forall(ad, Addr, forall(d, string, ad != addrOf(msg.Bidder) && (ad != payEsc(msg.AuctionId) || d != old(Auction[msg.AuctionId]).PayingCoinDenom) ==> bal(ad, d) == old(bal(ad, d)))))
+//@ ensures [C06,C05] remainder-decreases-by-the-bid: validBidType(msg.BidType) ==> (err == nil && msg.BidType == BidTypeFixedPrice ==> Auction[msg.AuctionId].RemainingSellingCoin.Amount == old(Auction[msg.AuctionId]).RemainingSellingCoin.Amount - sellOf(result0, old(Auction[msg.AuctionId]).PayingCoinDenom) && Auction[msg.AuctionId].RemainingSellingCoin.Amount >= 0)
+//@ ensures [C06,C19] batch-auction-record-untouched: validBidType(msg.BidType) ==> (msg.BidType != BidTypeFixedPrice ==> Auction == old(Auction))
+//@ ensures [C17] hook-fired-before-the-bid-is-written: validBidType(msg.BidType) ==> (err == nil && k.hooks != nil ==> hookN("BeforeBidPlaced") == old(hookN("BeforeBidPlaced")) + 1 && hookArgsAre("BeforeBidPlaced", result0.AuctionId, result0.Id, result0.Bidder, result0.Type, result0.Price, result0.Coin) && hookT("BeforeBidPlaced") < setT("Bid"))
 //@ ensures [C17] veto-aborts-before-the-write: !HookOK ==> err != nil && Bid == old(Bid)
-//@ ensures [C01,C06,C10,C19,C02,C03,C04,C05,C07,C08,C09,C11,C12,C13,C16] preserves-the-invariant: err == nil ==> Inv()
+//@ ensures [C01,C06,C10,C19,C02,C03,C04,C05,C07,C08,C09,C11,C12,C13,C16] preserves-the-invariant: validBidType(msg.BidType) ==> (err == nil ==> Inv())
 
 // ModifyBid (C11): only the owner, only while the batch auction is open, price and amount not lower and one of them
 // higher, same denomination, price floor respected; the extra charge is the increase of the required reservation.
